@@ -239,6 +239,18 @@ fn early_return_programs() -> Vec<String> {
         v.push(format!("{}function t.m() {} {} end\nfunction t:n() {} {} end\nreturn t.m(), t:n()\n", PRELUDE, s, rest, s, rest));
         v.push(format!("{}for i = 1, 3 do emit(i) do break end {} {} end\nfor i = 1, 3 do {} do break end end\nreturn 9\n", PRELUDE, s, rest, s));
         v.push(format!("{}for i = 1, 3 do emit(i) do continue end {} {} end\nreturn 9\n", PRELUDE, s, rest));
+        // a loop whose body contains / ends with a stop, but with a CONDITIONAL exit (taken at run time, not
+        // decidable statically: x = get1()) before it: the statements after the loop are reachable
+        v.push(format!("{}local n = 0\nrepeat n = n + 1 if x then break end emit(n) {} {} until false\nemit('after-loop', n)\nreturn 9\n", PRELUDE, s, rest));
+        v.push(format!("{}local n = 0\nrepeat n = n + 1 if n > 1 then break end emit(n) if n > 5 then {} end until false\nemit('after-loop', n)\nreturn 9\n", PRELUDE, s));
+        v.push(format!("{}local n = 0\nrepeat n = n + 1 if x then continue end emit(n) {} {} until n > 0\nemit('after-loop', n)\nreturn 9\n", PRELUDE, s, rest));
+        v.push(format!("{}local n = 0\nrepeat n = n + 1 if x then break end emit(n) {} return 5 until false\nemit('after-loop', n)\nreturn 9\n", PRELUDE, if s.contains("return") && !s.contains("if x") && !s.contains("while") { "emit('in')" } else { s }));
+        v.push(format!("{}local function g(...)\nlocal n = 0\nrepeat n = n + 1 if x then break end emit(n) {} {} until false\nemit('after-loop', n)\nreturn 7\nend\nemit(g(1))\nreturn g()\n", PRELUDE, s, rest));
+        v.push(format!("{}local function g()\nrepeat do if x then break end end {} until false\nemit('after-loop')\nend\ng()\nreturn 9\n", PRELUDE, s));
+        v.push(format!("{}while true do if x then break end emit(0) {} {} end\nemit('after-loop')\nreturn 9\n", PRELUDE, s, rest));
+        v.push(format!("{}for i = 1, 3 do if x then break end emit(i) {} {} end\nemit('after-loop')\nreturn 9\n", PRELUDE, s, rest));
+        v.push(format!("{}for k, w in pairs({{1, 2}}) do if x then continue end emit(k) {} {} end\nemit('after-loop')\nreturn 9\n", PRELUDE, s, rest));
+        v.push(format!("{}local n = 0\nrepeat n = n + 1 repeat if x then break end {} until false emit('inner-after') if n > 1 then break end until false\nemit('after-loop', n)\nreturn 9\n", PRELUDE, s));
     }
     v
 }
